@@ -272,6 +272,35 @@ theorem validateUnits_of {α : Type} {a : TP α} {u pu : UnitT} (h1 : canonUnit 
   unfold validateUnits
   rw [h1]; simp only; rw [h2]
 
+/-! ### `update_cached` for the algebraic kinds -/
+
+/-- what `update_cached` stores for an algebraic kind with known units -/
+theorem updateCached_dur (t : TP Rat) (hk : t.kind = .dur) {u pu : String} {lu lpu s p : Rat}
+    (hu : t.unit = some u) (hpu : t.parentUnit = some pu) (hs : t.selfDt = some s) (hp : t.parentDt = some p)
+    (hlu : unitLen u = some lu) (hlpu : unitLen pu = some lpu) (hp0 : p ≠ 0) (die : Bool) :
+    updateCached ratOps t true die =
+      ({ t with factor := some ((s / p) * (lu / lpu)), values := some (t.v.map (· * ((s / p) * (lu / lpu)))) }, .ok ()) := by
+  have hf : updateFactor t = .ok ((s / p) * (lu / lpu)) := by
+    simp [updateFactor, hu, hpu, hs, hp, timeRatio_known hlu hlpu hp0]
+  unfold updateCached
+  rw [hf]
+  simp only [if_true, hk, ratOps_ofRat, convVal_dur]
+  cases die <;> rfl
+
+theorem updateCached_rate (t : TP Rat) (hk : t.kind = .rate) {u pu : String} {lu lpu s p : Rat}
+    (hu : t.unit = some u) (hpu : t.parentUnit = some pu) (hs : t.selfDt = some s) (hp : t.parentDt = some p)
+    (hlu : unitLen u = some lu) (hlpu : unitLen pu = some lpu) (hp0 : p ≠ 0) (hs0 : s ≠ 0) (die : Bool) :
+    updateCached ratOps t true die =
+      ({ t with factor := some ((s / p) * (lu / lpu)), values := some (t.v.map (· / ((s / p) * (lu / lpu)))) }, .ok ()) := by
+  have hf : updateFactor t = .ok ((s / p) * (lu / lpu)) := by
+    simp [updateFactor, hu, hpu, hs, hp, timeRatio_known hlu hlpu hp0]
+  have hne : (s / p) * (lu / lpu) ≠ 0 :=
+    mul_ne_zero (div_ne_zero hs0 hp0) (div_ne_zero (ne_of_gt (unitLen_pos hlu)) (ne_of_gt (unitLen_pos hlpu)))
+  unfold updateCached
+  rw [hf]
+  simp only [if_true, hk, ratOps_ofRat, convVal_rate hne]
+  cases die <;> rfl
+
 /-! ### Lawful comparisons (for the branch-structure theorems, valid for `Rat` and `ℝ`) -/
 
 structure LawfulOrd {α : Type} (o : NumOps α) : Prop where
